@@ -83,7 +83,11 @@ CLAIMED = {
         "Machine-checked proofs in exact arithmetic: every solution of the weighted normal equations of the design [1,i,j] "
         "is a global minimiser of the weighted sum of squared distances for all non-negative weights; Cramer solution "
         "solves them and is unique at rank 3; covariance under every affine map (zero by the map, a,b by its linear part); "
-        "invariance under weight rescaling; source text of weighted_optimize/optimize/error/affinematch pinned; real fits "
+        "invariance under weight rescaling; noise propagation: observations within eps of a lattice => the fitted lattice "
+        "deviates at ANY node by d with det N d^2 <= v^T adj(N) v eps^2 sum(w) (energy identity at the optimum + a "
+        "division-free Cauchy-Schwarz inequality for the normal matrix), at a fitted node w d^2 <= eps^2 sum(w) (leverage "
+        "<= 1); the determinant of the normal matrix is non-negative and monotone under adding observations; exact data are "
+        "recovered exactly; source text of weighted_optimize/optimize/error/affinematch pinned; real fits "
         "compared with the exact rational optimum.",
         "Lean kernel + standard axioms; A-LA (lstsq returns a least-squares solution) is an assumption tied by the "
         "correspondence; float conditioning handled by scaled tolerances.",
@@ -114,8 +118,15 @@ CLAIMED = {
         "node peaks (weak peaks and rejected outliers excluded, node peaks missed by round one recovered) with their true "
         "indices; rank 3 of the final selection follows from rank 3 of round one because the determinant of the normal matrix "
         "is monotone under adding observations with non-negative weights (det_mono_sublist). Instances are run on the compiled "
-        "model (exact equality) and on the implementation (1e-9). NOT proved: the composition of both rounds for NOISY peaks "
-        "(how far the first fit moves the lattice) and irrational rotation angles - decided by the differential oracle only.",
+        "model (exact equality) and on the implementation (1e-9). NOISY peaks, both rounds (noisy_inliers_kept): if round one "
+        "selects only node peaks with their true indices and the match is valid, the first fit deviates from the truth at "
+        "every node by d with det N d^2 <= v^T adj(N) v eps^2 sum(w) (N = design of the round-one selection; "
+        "C06.noise_propagation via a Cauchy-Schwarz inequality for the normal matrix), the reported selection is exactly "
+        "round two against that fit, and every strong inlier with 4 kappa (eps+d)^2 < tol^2 and 8 kappa (eps+d)^2 < "
+        "min(|a1|^2,|b1|^2) is selected with its true indices; the oracle instantiates the theorem in exact Fraction "
+        "arithmetic on every structured case (hypotheses hold on ~99 % of them, ~90 % of all inliers are guaranteed) and "
+        "requires the conclusion from the implementation. NOT proved: rejection of arbitrary outliers in the noisy case "
+        "beyond half_cell_rejected, irrational rotation angles - decided by the differential oracle only.",
         "Lean kernel + standard axioms; translator; A-LA; rank-deficient selections (minimum-norm lstsq) not modelled; the "
         "robustness clause is checked with a reference re-implementation and preconditions derived from the selection formula.",
         "Lean 4 proof (partial: invariants, selection rule, WLS result) + exact-rational differential correspondence of both rounds",
